@@ -38,6 +38,7 @@ class Pipe:
     def feed(self, data):
         self.buf += data
         self.total += len(data)
+        self.blob_updates = getattr(self, "blob_updates", 0) + data.count(b"<setBLOBVector")     # every message is written whole
         if self.waiter and not self.waiter.done():
             self.waiter.set_result(None)
 
@@ -257,6 +258,10 @@ def run_case(case):
                         "states": [comp_dev.enc_state(d, df) for d, df in zip(drivers, defns)],
                         "mirrors": [comp_cli.enc_mirror(c) for c in clients], "exc": exc,
                         "alive": [not t.done() for t in tasks]})
+        # what travelled on each network client's CONTROL connection (server -> client): BLOB updates belong there only if the
+        # client asked for them on that connection (enableBLOB Also)
+        obs[-1]["control_blob_updates"] = [None if c.startswith("snoop") else getattr(cl.control_connection_handler.down, "blob_updates", 0)
+                                           for c, cl in zip(case["clients"], clients)]
         for t in tasks:
             t.cancel()
         for t in asyncio.all_tasks():
@@ -346,6 +351,11 @@ def run_impl(case, outcome):
                         qs.append(Query("spec c08 %s %s %d %d %d %s %s" % (policy, o["drivers"][sub[1]], sub[2], sub[3], sub[4], obs[n]["mirrors"][ci], o["mirrors"][ci]),
                                         "True", "oracle", "BLOB %d bytes published by device %d in a burst under back-pressure: client %d (%s) holds the wrong thing"
                                         % (len(sub[5]["b"]) // 2, sub[1], ci, kind)))
+    if "C08" in want:
+        for ci, (kind, nblob) in enumerate(zip(case["clients"], obs[-1].get("control_blob_updates") or [])):
+            if kind == "net" and nblob:
+                qs.append(Query("spec istrue False", "True", "oracle",
+                                "C08: a connection that did not enable BLOBs (client %d's control connection) was sent %d BLOB payload update(s)" % (ci, nblob)))
     if "alive" in obs[-1] and not all(obs[-1]["alive"]):
         qs.append(Query("spec istrue False", "True", "oracle", "a server connection handler ended during the session"))
     # known finding: an element longer than the junk-recovery threshold on a thresholded connection (uploads; BLOBs to an Also client)
@@ -545,6 +555,41 @@ def gen_c06(rng, tier):
                 ops.append(w)
         yield {"op": "sys", "devices": devices, "clients": clients, "frag": rng.choice(["1024", "1", "random"]), "frag_seed": rng.randrange(10 ** 6),
                "ops": ops, "oracles": ["C06", "C01"]}
+
+
+def gen_c06_subsets(rng, tier):
+    """successive writes to DIFFERENT element subsets of one property, the device moving on in between: a write addresses the
+    elements it lists and no others - a later write must not re-send what an earlier one sent"""
+    n = 120 if tier == "thorough" else 24
+    done = 0
+    for _ in range(n * 6):
+        if done >= n:
+            break
+        devices = simple_devices(rng, 1)
+        for d in devices:
+            for g in d["groups"]:
+                g["enabled"] = True
+                for v in g["vectors"]:
+                    v["enabled"] = True
+        d = merged_of(devices[0])
+        cands = [(gi, vi, v) for gi, g in enumerate(d["groups"]) for vi, v in enumerate(g["vectors"])
+                 if v["kind"] in ("text", "number") and len(v["elements"]) >= 2 and len({e["name"] for e in v["elements"]}) == len(v["elements"])
+                 and all(e.get("enabled", True) for e in v["elements"]) and v.get("perm", "rw") != "ro"
+                 and sum(1 for g2 in d["groups"] for v2 in g2["vectors"] if v2["name"] == v["name"]) == 1]
+        if not cands:
+            continue
+        gi, vi, v = rng.choice(cands)
+        names = [e["name"] for e in v["elements"]]
+        text = v["kind"] == "text"
+        first, second, third = ("one", "two", "three") if text else ("11", "22", "33")
+        moved = {"t": "moved"} if text else {"n": 44}
+        ops = [["cw", 0, d["name"], v["name"], {names[0]: first}],
+               ["a", 0, gi, vi, 0, moved],                                   # the device changes that element on its own
+               ["cw", 0, d["name"], v["name"], {names[1]: second}],           # must leave names[0] alone
+               ["cw", 0, d["name"], v["name"], {names[-1]: third}]]
+        done += 1
+        yield {"op": "sys", "devices": devices, "clients": rng.choice([["net"], ["net", "snoop:0"]]), "frag": rng.choice(["1024", "1", "random"]),
+               "frag_seed": rng.randrange(10 ** 6), "ops": ops, "oracles": ["C06", "C01"]}
 
 
 def gen_c06_pending(rng, tier):
